@@ -232,7 +232,7 @@ def run(ctx):
         "fetch_add_sites": [s for s in at.get("sites", []) if s.get("kind") == "fetchAdd"],
         "unknownWrites": at.get("unknownWrites"),
     }
-    ok, out = common.lean_obligations(ctx, MODULE)
+    ok, out = common.lean_obligations(ctx, MODULE, ["TriompheModel.Props.TraitCensus"])
 
     drv = common.lean_exe("drv_ovf")
     cases = gen_cases(ctx)
